@@ -115,6 +115,15 @@ def run(e: Engine, rep: Report):
              'envelope\'s outcome - and takes them away from the clients '
              'that would have delivered them')
     l15(e, rep)
+    rep.rule('L16', 'a reused connection starts every message with a clean '
+             'slate: a container a relay client keeps on itself, fills while '
+             'a message is delivered and reads into that message\'s result '
+             'is emptied at the top of _deliver (or in a finally of it) - a '
+             'reset that only some ways out of the transaction pass (the '
+             'success path, one helper) leaves the refusals of a message '
+             'that failed at end-of-data to be merged into the result of '
+             'the next envelope on the same connection')
+    l16(e, rep)
 
 
 
@@ -1144,3 +1153,115 @@ def _names_of(text):
                                        mode='eval')))
     except SyntaxError:
         return []
+
+
+# ---------------------------------------------------------------------- L16
+def l16(e: Engine, rep: Report):
+    FILL = ('update', 'append', 'add', 'setdefault', 'extend', 'insert',
+            'appendleft')
+    classes = [cq for cq in sorted(e.p.classes) if cq.startswith(
+        ('slimta.relay.smtp.client.', 'slimta.relay.smtp.lmtpclient.'))]
+    if not classes:
+        rep.error('anchor vanished: relay client classes')
+        return
+
+    def self_attr(x, name=None):
+        return isinstance(x, ast.Attribute) and \
+            isinstance(x.value, ast.Name) and x.value.id == 'self' and \
+            (name is None or x.attr == name)
+    found = 0
+    for cq in classes:
+        c = common.merged_class(e, cq)
+        rep.evaluations += 1
+        filled = {}
+        for mname, m in c.methods.items():
+            if mname == '__init__':
+                continue
+            for x in walk_own(m.node):
+                if isinstance(x, ast.Call) and \
+                        isinstance(x.func, ast.Attribute) and \
+                        x.func.attr in FILL and self_attr(x.func.value):
+                    filled.setdefault(x.func.value.attr, (m, x))
+                if isinstance(x, (ast.Assign, ast.AugAssign)):
+                    tg = x.targets if isinstance(x, ast.Assign) \
+                        else [x.target]
+                    for t in tg:
+                        if isinstance(t, ast.Subscript) and \
+                                self_attr(t.value):
+                            filled.setdefault(t.value.attr, (m, x))
+        for attr, (fm, fx_) in sorted(filled.items()):
+            # read into a result?
+            into = False
+            for m in c.methods.values():
+                for st in walk_own(m.node):
+                    if isinstance(st, ast.stmt) and not isinstance(
+                            st, (ast.If, ast.For, ast.While, ast.Try,
+                                 ast.With, ast.FunctionDef)):
+                        names = {y.id for y in ast.walk(st)
+                                 if isinstance(y, ast.Name)}
+                        if any(self_attr(y, attr) for y in ast.walk(st)) \
+                                and names & {'rcpt_results', 'result',
+                                             'results'}:
+                            into = True
+            if not into:
+                continue
+            # the client's own container: created empty in an __init__ of
+            # the class (the pool's request queue is handed in, not owned)
+            own = False
+            for k in e.p.mro(cq):
+                kc = e.p.classes.get(k)
+                init = kc.methods.get('__init__') if kc else None
+                for st in (walk_own(init.node) if init else ()):
+                    if isinstance(st, ast.Assign) and any(
+                            self_attr(t, attr) for t in st.targets) and (
+                            isinstance(st.value, (ast.Dict, ast.List,
+                                                  ast.Set)) or (
+                                isinstance(st.value, ast.Call) and
+                                not st.value.args and
+                                ast.unparse(st.value.func).rpartition(
+                                    '.')[2] in ('dict', 'list', 'set',
+                                                'OrderedDict', 'deque',
+                                                'defaultdict'))):
+                        own = True
+            if not own:
+                continue
+            found += 1
+            d = c.methods.get('_deliver')
+            ok = False
+            if d is not None:
+                def resets(st):
+                    if isinstance(st, ast.Assign) and any(
+                            self_attr(t, attr) for t in st.targets):
+                        return True
+                    return isinstance(st, ast.Expr) and \
+                        isinstance(st.value, ast.Call) and \
+                        isinstance(st.value.func, ast.Attribute) and \
+                        st.value.func.attr == 'clear' and \
+                        self_attr(st.value.func.value, attr)
+                for st in d.node.body:
+                    if resets(st):
+                        ok = True
+                        break
+                    if isinstance(st, ast.Try) and any(
+                            resets(z) for z in st.finalbody):
+                        ok = True
+                        break
+                    if any(self_attr(y, attr) for y in ast.walk(st)):
+                        break
+            rep.check(ok, 'L16', fm.qname,
+                      'per-message container self.%s is emptied where a '
+                      'message starts' % attr,
+                      'self.%s is filled while a message is delivered and '
+                      'read into its result, but _deliver does not empty it '
+                      'before using it (nor in a finally): whatever way out '
+                      'of a transaction misses the reset - a message refused '
+                      'at end-of-data, a dropped connection that is answered '
+                      'by a retry - leaves its entries to be reported for '
+                      'the next envelope on this connection (a recipient '
+                      'the server accepted is reported with the previous '
+                      'message\'s refusal)' % attr, loc=fm.loc(fx_),
+                      reason='reset at the top of _deliver / in its finally')
+    if not found:
+        rep.ok('L16', ', '.join(x.rpartition('.')[2] for x in classes),
+               'the relay clients keep no per-message container on '
+               'themselves', reason='%d classes looked at' % len(classes))
